@@ -346,12 +346,14 @@ PagSessionClauses(post, o, S) ==
                                       /\ r.ccount = Cardinality({ j \in 1..Len(r.pages) : r.pages[j].cr }))>>,
     <<"C09.marks",    \A j \in 1..Len(r.pages) :
                          r.pages[j].cr = (r.pages[j].l \in CSet(o)) /\ (a.co => r.pages[j].cr)>>,
-    <<"C09.nodup",    Len(all) = Cardinality(SeqSet(all))>>,
-    <<"C09.order",    \A i \in 1..Len(all) : \A j \in 1..Len(all) : i < j =>
-                         \/ OwnIdx(all[i]) < OwnIdx(all[j])
-                         \/ (OwnIdx(all[i]) = OwnIdx(all[j]) /\ LruLess(all[i], all[j]))>>,
+    \* across the answers of a session: claimed when only page insertions happened in between
+    <<"C09.nodup",    r.pure => Len(all) = Cardinality(SeqSet(all))>>,
+    <<"C09.order",    LET seq == IF r.pure THEN all ELSE [j \in 1..Len(r.pages) |-> r.pages[j].l] IN
+                      \A i \in 1..Len(seq) : \A j \in 1..Len(seq) : i < j =>
+                         \/ OwnIdx(seq[i]) < OwnIdx(seq[j])
+                         \/ (OwnIdx(seq[i]) = OwnIdx(seq[j]) /\ LruLess(seq[i], seq[j]))>>,
     <<"C09.member",   got \subseteq LSet(r.wpages)>>,
-    <<"C09.complete", (r.exc = "" /\ r.done) =>
+    <<"C09.complete", (r.exc = "" /\ r.done /\ r.pure) =>
                          { p \in SeqSet(r.through) : ~a.co \/ p \in SeqSet(r.cthrough) } \subseteq SeqSet(all)>>,
     <<"C09.token",    r.tokenRoundTrip>>
   >>)
@@ -372,7 +374,9 @@ PagLinkSessionClauses(post, o, S) ==
     <<"C10.size",     r.exc = "" => (r.nsrc = Cardinality(srcs) /\ r.nlinks = Len(r.links)
                                       /\ (IF r.done THEN (a.k = 0 \/ r.nsrc <= a.k)
                                            ELSE (r.nsrc = a.k /\ r.hasToken)))>>,
-    <<"C10.once",     Len(r.sofar) + Len(r.links) = Cardinality({ <<e[1], e[2]>> : e \in all })>>,
+    \* across the answers of a session: C10 speaks of a reachable state, i.e. no write in between
+    <<"C10.once",     IF r.quiet THEN Len(r.sofar) + Len(r.links) = Cardinality({ <<e[1], e[2]>> : e \in all })
+                      ELSE Len(r.links) = Cardinality({ <<e[1], e[2]>> : e \in Trip(r.links) })>>,
     <<"C10.subset",   Trip(r.links) \subseteq Trip(r.full)>>,
     <<"C10.union",    (r.exc = "" /\ r.done /\ r.quiet) => all = Trip(r.full)>>,
     <<"C10.token",    r.tokenRoundTrip>>
